@@ -153,16 +153,15 @@ def net_case(torch, job):
                 for _ in range(40):
                     spec = ga.gen(rng, dim=job.get('dim') or rng.choice([1, 1, 2]), conv_head=True, k1d=[1, 2, 3, 3, 4, 5, 6, 7], p_stride=0.2, bn=False, cmax=4,
                                   T=rng.randint(6, 9), HW=rng.randint(4, 6), depth=rng.randint(1, 3))
-                    if not any(nd['k'].startswith(('avgpool', 'gap')) for nd in spec['nodes']) and not (ga.has_dw_after_cat(spec) or ga.has_add_of_cat(spec)):
+                    if not any(nd['k'].startswith(('avgpool', 'gap')) for nd in spec['nodes']):
                         break
                 else:
                     o['skip'] = 'no-average-free-architecture'
                     return o
             else:
                 spec = gen_spec(rng, job.get('dim') or rng.choice([1, 1, 2]))
-            if ga.has_dw_after_cat(spec) or ga.has_add_of_cat(spec):
-                o['skip'] = 'dw-after-cat' if ga.has_dw_after_cat(spec) else 'add-of-cat'     # C09's topologies
-                return o
+            # depthwise-after-concat / add-of-concat: their masker groups are frozen since the C09 fix; no longer skipped, counted
+            o['topo'] = [t for t, f in (('dw-after-cat', ga.has_dw_after_cat), ('add-of-cat', ga.has_add_of_cat)) if f(spec)]
         o['arch'] = ga.describe(spec)
         o['spec'] = spec
         integer = job['integer']
